@@ -14,7 +14,7 @@ import sys
 
 ROOT = os.path.dirname(os.path.dirname(os.path.abspath(__file__)))
 dest_root = os.path.join(ROOT, "seeded")
-for src_root in sys.argv[1:] + [dest_root]:
+for src_root in sys.argv[1:] + [dest_root]:  # NB: run once per source dir (copies overwrite meta.json)
     if not os.path.isdir(src_root):
         continue
     for name in sorted(os.listdir(src_root)):
